@@ -1,6 +1,6 @@
 (* C07 - proof obligations over the GENERATED facts of the current tree (Generated/Facts_C07.v), discharged by computation.
    Every proof here is re-run whenever the translator's output changes; the proofs are written so that they hold both for
-   the pinned tree (f809570: F09 and F25 present) and for the tree with fixes/F09_*.patch / fixes/F25_*.patch applied. *)
+   the tree before the fixes of F09 (3c09a2c) and F47 (2727a7f) and for the tree with them. *)
 From Coq Require Import List ZArith Bool String.
 Import ListNotations.
 Require Import DH.C07_Repro.Model DH.C07_Repro.Keys DH.C07_Repro.Lemmas.
